@@ -14,7 +14,7 @@ def main():
     quick = ck.tier == 'quick'
     P = ['C02', 'CRASH']
     ops = ['>=', '>', '=']
-    shape = dict(nl=1, nr=2, k=3) if quick else dict(nl=2, nr=2, k=3)
+    shape = dict(nl=1, nr=2, k=3) if quick else dict(nl=2, nr=2, k=2)
     ck.bounds = dict(core=shape, api=dict(rows='2x2', tokens_per_cell=1),
                      thresholds='grid per measure (soundness needs no kernel contract: the final '
                                 'verification step is what is checked)')
@@ -30,6 +30,11 @@ def main():
     ck.e2('core-overlap', h_core.make(dict(entry='filter_split', filter='OverlapFilter',
                                            measure='OVERLAP', thresholds=[1, 2, 3], comp_ops=ops,
                                            props=P, **shape)))
+    if not quick:
+        for measure, thr in (('JACCARD', [0.5, 0.8]), ('COSINE', [0.7]), ('DICE', [0.8])):
+            ck.e2('core-%s-1x2k3' % measure, h_core.make(dict(
+                entry='set_sim_join', measure=measure, thresholds=thr, comp_ops=ops, out_sim_score=[True],
+                props=P, nl=1, nr=2, k=3)), bounds=dict(thresholds=thr, rows='1x2', k=3))
     # unconstrained kernel + symbolic threshold: soundness holds whatever the arithmetic
     for measure in ('JACCARD', 'COSINE', 'DICE'):
         ck.e2('core-free-%s' % measure, h_core.make(dict(
